@@ -20,6 +20,8 @@ mod c17;
 mod c05;
 mod c06;
 mod c07;
+mod c08;
+mod c09;
 mod c11;
 
 use runner::Tier;
@@ -33,6 +35,10 @@ fn dispatch_replay(prop: &str, w: &serde_json::Value) -> Vec<(String, String)> {
         "C05" => c05::replay(w),
         "C06" => c06::replay(w),
         "C07" => c07::replay(w),
+        "C08" => c08::replay(w),
+        #[cfg(feature = "rkyv")]
+        "C08R" => c08::rk::replay(w),
+        "C09" => c09::replay(w),
         "C10" => c10::replay(w),
         "C11" => c11::replay(w),
         "C16" => c16::replay(w),
@@ -80,6 +86,10 @@ fn main() {
         "C05" => c05::run(tier),
         "C06" => c06::run(tier),
         "C07" => c07::run(tier),
+        "C08" => c08::run(tier),
+        #[cfg(feature = "rkyv")]
+        "C08R" => c08::rk::run(tier),
+        "C09" => c09::run(tier),
         "C10" => c10::run(tier),
         "C11" => c11::run(tier),
         "C16" => c16::run(tier),
